@@ -66,6 +66,7 @@ def known_match(known, prop, unit, key):
 def run(prop, tier):
   t0 = time.time()
   seed = int(os.environ.get('VERIF_SEED', '0'))
+  os.environ['VERIF_TIER_CURRENT'] = tier
   us = U.load_sidecars()
   reg = U.registry(us)
   mine = [u for u in us if prop in u.get('props', []) and not u.get('external')]
@@ -149,6 +150,9 @@ def run(prop, tier):
 
   # report
   os.makedirs(os.path.join(HERE, 'replays'), exist_ok=True)
+  for old in os.listdir(os.path.join(HERE, 'replays')):
+    if old.startswith(prop + '_'):
+      os.unlink(os.path.join(HERE, 'replays', old))
   n_viol = 0
   known_hits = []
   for unit_name, key, rep in violations:
